@@ -105,3 +105,13 @@ Definition lower_dot (d1 d2 dout : list pex) : tm :=
   MReshape (MTranspose (MReshape (dot_matmul d1 d2 dout) (llens mid)) (perm_of mid dout)) (map psize dout).
 Definition dot_ok (d1 d2 dout : list pex) : bool :=
   rearrange_ok d1 (dot_lhs d1 d2 dout) && rearrange_ok d2 (dot_rhs d1 d2 dout) && rearrange_ok (dot_mid d1 d2 dout) dout.
+
+(* ---- un-bracketed reductions ----
+   "a b c -> a c" is read as "a [b] c -> a c": the axes that the output does not list get the brackets *)
+Fixpoint pmark (g : N -> bool) (p : pex) : pex :=
+  match p with
+  | PAx n l _ => PAx n l (g n)
+  | PFl cs => PFl (map (pmark g) cs)
+  | POff o t i => POff o t (pmark g i)
+  end.
+Definition automark (din dout : list pex) : list pex := map (pmark (fun n => negb (memNb n (lnames dout)))) din.
